@@ -169,6 +169,7 @@ fn alphabet(prop: Prop, universe: u64, cap: usize) -> Vec<Op> {
             a.push(Op::Resize { cap: 1 });
             a.push(Op::EvictAll);
             a.push(Op::Flush);
+            a.push(Op::FlushCancelled);
         }
         Prop::C18 => {
             for k in 0..universe {
